@@ -4,11 +4,12 @@ import numpy as np
 from common import *
 
 ID = "C12"
-THEOREM_FILES = ["Summer.Props.C12", "Summer.Props.C12Grid", "Summer.Props.C12Dates", "Summer.Props.C13Source", "Summer.Props.C08Source"]
+THEOREM_FILES = ["Summer.Props.C12", "Summer.Props.C12Grid", "Summer.Props.C12Dates", "Summer.Props.C13Source", "Summer.Props.C08Source", "Summer.Props.C06Source"]
 TASK = "task"
 RULE = ("programs with 0-3 full/partial stratifications and flows added before and after them: model.times vs t0 + i*h, compartment order vs "
         "the model's in-place replacement rule, outputs shape, DataFrame index/columns, every flow end is the compartment at the position it "
         "claims; a flow-free copy of the structure with pairwise distinct populations identifies column j by value for all three solvers; "
+        "pairs of models that share one Stratification object but differ in layout (row 0 must follow each model's own layout); "
         "datetime start/end with a reference date convert to the same numbers and the frames carry ref_date + t days; distinct by program hash, "
         "non-trivial when >= 1 stratification")
 TRUSTED = ["pandas DataFrame construction and datetime arithmetic (executed only)"]
@@ -17,9 +18,21 @@ ASSUMPTIONS = ["compartment and stratum names contain no 'X' and stratification 
 
 def payloads(tier, seed):
     n = 60 if tier == "quick" else 1200
-    return [{"seed": seed, "index": i} for i in range(n)]
+    return [{"seed": seed, "index": i} for i in range(n)] + [{"seed": seed, "index": i, "mode": "shared"} for i in range(16 if tier == "quick" else 300)]
+
+def shared_task(W, payload):
+    """one Stratification object applied to two models with different compartment layouts: in each model, column j of the values handed to
+    the solver (row 0 of the outputs) must be the population of compartment j of THAT model (harness/props/c06.py::shared_task)"""
+    import c06
+    out = c06.shared_task(W, dict(payload))
+    for d in out.get("diffs", []):
+        d["task"] = {"module": "c12", "fn": "task", "payload": payload}
+        d["what"] = "column / compartment alignment: " + d.get("what", "")
+    return out
 
 def task(W, payload):
+    if payload.get("mode") == "shared":
+        return shared_task(W, payload)
     r = random.Random(f"C12:{payload['seed']}:{payload['index']}")
     prog = Gen(r, Opts(max_strats=3, max_flows=6, allow_requests=True, n_requests=2, allow_computed=False)).program()
     S = fresh_session(W)
